@@ -222,8 +222,7 @@ def run(rep):
     rep.notes["monitored_executions"] = nmon
     # ---- T: the recorded state sequences are behaviours of Life
     for role, items in traces.items():
-        if quick:
-            items = items[::4]
+        items = items[::4] if quick else items[::6]          # about 3 s of TLC per trace (the peer and all program counters are inferred)
         for i in range(0, len(items), 40):
             validate(rep, role, items[i:i + 40])
     if traces.get("client"):
